@@ -95,6 +95,9 @@ func (g *G) props(scope int, cfg *Cfg) []ref.Prop {
 			n := t.Pick(5, 3, 2, 1)
 			if n == 3 {
 				n = 3 + t.Int(6)
+				if t.Bool(1, 4) {
+					n = 17 + t.Int(24) // more than a "small list" threshold of 8 or 16
+				}
 			}
 			first := len(out)
 			for i := 0; i < n; i++ {
@@ -114,6 +117,9 @@ func (g *G) props(scope int, cfg *Cfg) []ref.Prop {
 			}
 			if n == 2 {
 				n = 2 + t.Int(3)
+				if t.Bool(1, 5) {
+					n = 17 + t.Int(24)
+				}
 			}
 			for i := 0; i < n; i++ {
 				out = append(out, g.propValue(d, false))
@@ -348,6 +354,19 @@ func (g *G) ofType(typ byte, cfg *Cfg) *ref.AP {
 			}
 		}
 		a.Payload = g.Bin(n)
+		for _, pr := range a.Props {
+			if pr.ID == 0x01 && pr.N == 1 && n <= 65535 && t.Bool(2, 3) {
+				// payload format indicator 1: the payload is text - sometimes text that
+				// begins with a byte order mark or another code point with a reputation
+				a.Payload = g.Str(n)
+				if n >= 3 && t.Bool(1, 4) {
+					sp := unicodeSpecials[t.Int(2)] // U+FFFD or U+FEFF
+					if a.Payload[0] < 0x80 && a.Payload[1] < 0x80 && a.Payload[2] < 0x80 {
+						copy(a.Payload, sp)
+					}
+				}
+			}
+		}
 		if len(a.Payload) > 0 && t.Bool(1, 6) {
 			// a payload that continues in the syntax of what precedes it: it begins with
 			// the identifier of a property of this very packet (a decoder that runs past
@@ -403,6 +422,9 @@ func (g *G) ofType(typ byte, cfg *Cfg) *ref.AP {
 		n := 1 + t.Pick(6, 3, 1)
 		if n == 3 {
 			n = 3 + t.Int(12)
+			if t.Bool(1, 4) {
+				n = 17 + t.Int(24)
+			}
 		}
 		for i := 0; i < n; i++ {
 			f := ref.Filter{Name: g.Filter()}
@@ -427,6 +449,9 @@ func (g *G) ofType(typ byte, cfg *Cfg) *ref.AP {
 		n := 1 + t.Pick(6, 3, 1)
 		if n == 3 {
 			n = 3 + t.Int(12)
+			if t.Bool(1, 4) {
+				n = 17 + t.Int(24)
+			}
 		}
 		for i := 0; i < n; i++ {
 			f := ref.Filter{Name: g.Filter()}
@@ -561,6 +586,45 @@ func Bulk(t *sim.Tape, thorough bool) *ref.AP {
 		a.Props = ups(n)
 		return a
 	}
+}
+
+// BulkDup draws a packet (NOT a valid one) whose property section repeats ONE
+// single-valued property thousands of times: MQTT forbids the repetition, a
+// decoder may reject it or take the last value - in time proportional to the
+// frame, whatever it does to detect the repetition.
+func BulkDup(t *sim.Tape, thorough bool) *ref.AP {
+	n := 500 + t.Int(4000)
+	if t.Bool(1, 6) {
+		n = 40000 + t.Int(30000)
+	}
+	typ := []byte{ref.Publish, ref.ConnAck, ref.Connect, ref.Disconnect, ref.PubAck}[t.Int(5)]
+	a := &ref.AP{Type: typ, Flags: ref.ReservedFlags(typ), PacketID: 7}
+	switch typ {
+	case ref.Publish:
+		a.Topic = []byte("t")
+	case ref.Connect:
+		a.ProtoName, a.ProtoVer = []byte("MQTT"), 5
+	}
+	allowed := ref.AllowedIn(int(typ))
+	var cands []*ref.PropDef
+	for _, d := range allowed {
+		if d.ID != 0x26 && d.ID != 0x0B {
+			cands = append(cands, d)
+		}
+	}
+	d := cands[t.Int(len(cands))]
+	g := &G{T: t}
+	p := g.propValue(d, false)
+	if d.Kind == ref.KUTF8 || d.Kind == ref.KBinary {
+		p.B = []byte{}
+		if t.Bool(1, 2) {
+			p.B = []byte("v")
+		}
+	}
+	for i := 0; i < n; i++ {
+		a.Props = append(a.Props, p)
+	}
+	return a
 }
 
 // Tune pads a packet so that its remaining length or its property length
